@@ -46,6 +46,10 @@ class ModelClient(Actor):
         self.sent = []               # (time, id, labels, qtype) of every query sent
         self.dgrams = []             # recent query datagrams (for re-delivery)
         self.final_dgrams = []
+        self.strict_match = False    # see on_datagram
+        self.my_ids = set()
+        self.answered_ids = set()
+        self.stray = []
 
     # ------------------------------------------------------------------ io
     def on_datagram(self, src, dst, data):
@@ -57,6 +61,13 @@ class ModelClient(Actor):
             m = proto.parse_msg(data)
         except proto.ParseError:
             return
+        if self.strict_match:
+            # behave like a stub resolver: only the first answer to an id this client itself issued from
+            # this port counts; anything else (answers to re-delivered copies) is set aside
+            if dst[1] != self.sport or m.id not in self.my_ids or m.id in self.answered_ids:
+                self.stray.append((self.kernel.now, dst, m))
+                return
+            self.answered_ids.add(m.id)
         self.replies.setdefault(m.id, []).append(m)
 
     def new_id(self):
@@ -72,6 +83,9 @@ class ModelClient(Actor):
         qt = self.qtype if qtype is None else qtype
         data = proto.build_query(qid, labels, qt, edns0=self.edns0 if edns0 is None else edns0)
         self.sent.append((self.kernel.now, qid, labels, qt))
+        if sport is None and src_ip is None:
+            self.my_ids.add(qid)
+            self.answered_ids.discard(qid)
         self.dgrams.append(data)
         if len(self.dgrams) > 64:
             del self.dgrams[:32]
